@@ -33,6 +33,7 @@ type thread struct {
 	scriptIdx    int
 	scriptOff    int
 	lastCodeSep  int
+	codeSepSeen  bool // an OP_CODESEPARATOR was executed in the current script (it may sit at index 0)
 
 	tx         *bt.Tx
 	inputIdx   int
@@ -488,6 +489,7 @@ func (t *thread) Step() (bool, error) {
 	}
 
 	t.lastCodeSep = 0
+	t.codeSepSeen = false
 	if t.scriptIdx >= len(t.scripts) {
 		return true, nil
 	}
@@ -510,7 +512,7 @@ func (t *thread) SetStack(data [][]byte) {
 // subScript returns the script since the last OP_CODESEPARATOR.
 func (t *thread) subScript() ParsedScript {
 	skip := 0
-	if t.lastCodeSep > 0 {
+	if t.codeSepSeen || t.lastCodeSep > 0 {
 		skip = t.lastCodeSep + 1 // +1 to skip the opcode separator itself
 	}
 	return t.scripts[t.scriptIdx][skip:]
@@ -794,6 +796,7 @@ func (t *thread) shiftScript() {
 	t.scriptOff = 0
 	t.scriptIdx++
 	t.lastCodeSep = 0
+	t.codeSepSeen = false
 	t.earlyReturnAfterGenesis = false
 }
 
